@@ -9,7 +9,7 @@ From Coq Require Import QArith Qreduction.
 From HclV Require Import Base.Prelude Cty.Values Cty.Convert Cty.Ops Eval.Impl Eval.Funcs
                          Eval.UnknownSound_Base Eval.UnknownSound_Known Eval.UnknownSound_Gamma
                          Eval.UnknownSound_Conv Eval.UnknownSound_Conv2 Eval.UnknownSound_Ops
-                         Eval.UnknownSound_Num Eval.UnknownSound_Cond.
+                         Eval.UnknownSound_Num Eval.UnknownSound_Cond Eval.UnknownSound_Eq.
 Open Scope Z_scope.
 Local Strategy opaque [equals val_size unmark_deep deep_marks unify_n convert].
 Notation ev_ := (eval_with index).
@@ -27,7 +27,7 @@ Inductive in_fragment : expr -> Prop :=
 | F_obj items : Forall (fun it => in_fragment (fst it) /\ in_fragment (snd it)) items -> in_fragment (EObj items)
 | F_objkey w force : in_fragment w -> in_fragment (EObjKey w force)
 | F_anon : in_fragment EAnon
-| F_bin op l r : is_eq_op op = false -> in_fragment l -> in_fragment r -> in_fragment (EBin op l r)
+| F_bin op l r : in_fragment l -> in_fragment r -> in_fragment (EBin op l r)
 | F_un op e : in_fragment e -> in_fragment (EUn op e)
 | F_cond c t f : in_fragment c -> in_fragment t -> in_fragment f -> in_fragment (ECond c t f)
 | F_tmpl parts : Forall in_fragment parts -> in_fragment (ETmpl parts)
@@ -38,6 +38,25 @@ Inductive in_fragment : expr -> Prop :=
 (* an arm of a conditional: a literal null, or a value whose type has no dynamic part *)
 Definition arm_ok (v : val) : bool := is_dyn_null v || negb (has_dyn (type_of v)).
 
+(* result type and conversion flags of a conditional (copy of the corresponding part of Impl.v, ECond;
+   the correspondence is checked by conversion where it is used) *)
+Definition cond_uni (tv fv : val) : option (ty * bool * bool) + bool :=
+  if is_dyn_null tv then inl (Some (type_of fv, true, false))
+  else if is_dyn_null fv then inl (Some (type_of tv, false, true))
+  else if ty_eqb (type_of tv) TDyn || ty_eqb (type_of fv) TDyn then inl (Some (TDyn, false, false))
+  else match unify (type_of tv) (type_of fv) with
+       | UOk t => inl (Some (t, negb (ty_eqb (type_of tv) t), negb (ty_eqb (type_of fv) t)))
+       | UNone => inr false
+       | UUnsupported => inr true
+       end.
+(* the unified result type has no dynamic part (always the case for the model's [unify] on types
+   without dynamic parts; assumed per evaluation instead of proved about [unify_n]) *)
+Definition rt_ok (tv fv : val) : bool :=
+  match cond_uni tv fv with
+  | inl (Some (rt, _, _)) => negb (has_dyn rt) || (is_dyn_null tv && is_dyn_null fv)
+  | _ => true
+  end.
+
 (* [clean fuel c anon e]: the evaluation of [e] and of every sub-expression it evaluates raises no
    error and stays inside the model; at every conditional, both arms are [arm_ok].
    (false on constructors outside the fragment) *)
@@ -47,7 +66,8 @@ Fixpoint clean (fuel : nat) (c : ctx) (anon : option val) (e : expr) {struct fue
   | S f =>
       diag_ok (snd (ev_ (S f) c anon e)) &&
       match e with
-      | ELit _ | EScopeTrav _ _ | EAnon => true
+      | ELit _ | EScopeTrav _ _ => true
+      | EAnon => is_some anon          (* an unbound anonymous symbol evaluates to DynamicVal *)
       | EParen e' | EWrap e' | EUn _ e' | ERelTrav e' _ => clean f c anon e'
       | EObjKey w force =>
           if negb force then
@@ -61,7 +81,8 @@ Fixpoint clean (fuel : nat) (c : ctx) (anon : option val) (e : expr) {struct fue
       | EObj items => forallb (fun it => clean f c anon (fst it) && clean f c anon (snd it)) items
       | ECond ce te fe =>
           clean f c anon ce && clean f c anon te && clean f c anon fe &&
-          arm_ok (fst (ev_ f c anon te)) && arm_ok (fst (ev_ f c anon fe))
+          arm_ok (fst (ev_ f c anon te)) && arm_ok (fst (ev_ f c anon fe)) &&
+          rt_ok (fst (ev_ f c anon te)) (fst (ev_ f c anon fe))
       | _ => false
       end
   end.
@@ -173,7 +194,7 @@ Qed.
 Lemma iv_bin f op l r : IV f -> forall c anon, in_fragment (EBin op l r) -> ctx_inv c -> anon_inv anon ->
   inv (fst (ev_ (S f) c anon (EBin op l r))) = true.
 Proof.
-  intros IH c anon Fr C A. inversion Fr as [| | | | | | | |? ? ? Ho Fl Frr| | | | |]; subst. cbn [eval_with].
+  intros IH c anon Fr C A. inversion Fr as [| | | | | | | |? ? ? Fl Frr| | | | |]; subst. cbn [eval_with].
   pose proof (IH c anon l Fl C A) as Il. destruct (ev_ f c anon l) as [glv lds]. simpl in Il.
   pose proof (IH c anon r Frr C A) as Ir. destruct (ev_ f c anon r) as [grv rds]. simpl in Ir.
   destruct (has_unsupported lds || has_unsupported rds); [reflexivity|].
@@ -182,11 +203,11 @@ Proof.
   destruct (conv grv (binop_param op)) as [rv| |] eqn:Ecr; try reflexivity.
   pose proof (conv_inv_pres _ _ _ Il Ecl) as Ilv. pose proof (conv_inv_pres _ _ _ Ir Ecr) as Irv.
   rewrite (inv_unmark lv Ilv), (inv_unmark rv Irv). rewrite marks_union_nil_nil.
-  repeat destruct_goal_inv; try reflexivity; try discriminate Ho.
+  repeat destruct_goal_inv; try reflexivity.
   all: cbn [fst with_marks];
        match goal with
        | H : call_binop ?o ?x ?y = OOk ?res, I1 : inv ?x = true, I2 : inv ?y = true |- _ =>
-           apply (call_binop_inv o x y res Ho I1 I2 H)
+           apply (call_binop_inv_all o x y res I1 I2 H)
        end.
 Qed.
 
@@ -337,7 +358,7 @@ Theorem iv_all : forall f, IV f.
 Proof.
   induction f as [|f IH]; intros c anon e Fr C A; [reflexivity|].
   destruct Fr as [v Hl|root steps Hs|src steps Fs Hs|a b Fa Fb|es Fes|items Fi|w force Fw|
-                  |op l r Ho Fl Frr|op e Fe|ce te fe Fc Ft Ff|parts Fp|e Fe|e Fe].
+                  |op l r Fl Frr|op e Fe|ce te fe Fc Ft Ff|parts Fp|e Fe|e Fe].
   - cbn [eval_with]. simpl. unfold lit_ok in Hl. apply andb_true_iff in Hl. tauto.
   - cbn [eval_with]. apply (iv_scope root steps c Hs C).
   - apply (iv_reltrav f src steps IH c anon (F_rel _ _ Fs Hs) C A).
@@ -346,7 +367,7 @@ Proof.
   - apply (iv_obj f items IH c anon (F_obj _ Fi) C A).
   - apply (iv_objkey f w force IH c anon (F_objkey _ _ Fw) C A).
   - cbn [eval_with]. destruct anon as [a|]; [apply (A a eq_refl)|reflexivity].
-  - apply (iv_bin f op l r IH c anon (F_bin _ _ _ Ho Fl Frr) C A).
+  - apply (iv_bin f op l r IH c anon (F_bin _ _ _ Fl Frr) C A).
   - apply (iv_un f op e IH c anon (F_un _ _ Fe) C A).
   - apply (iv_cond f ce te fe IH c anon (F_cond _ _ _ Fc Ft Ff) C A).
   - apply (iv_tmpl f parts IH c anon (F_tmpl _ Fp) C A).
@@ -378,7 +399,8 @@ Qed.
 Lemma clean_S f c an e : clean (S f) c an e = true ->
   diag_ok (snd (ev_ (S f) c an e)) = true /\
   match e with
-  | ELit _ | EScopeTrav _ _ | EAnon => True
+  | ELit _ | EScopeTrav _ _ => True
+  | EAnon => is_some an = true
   | EParen e' | EWrap e' | EUn _ e' | ERelTrav e' _ => clean f c an e' = true
   | EObjKey w force =>
       (if negb force then
@@ -392,13 +414,14 @@ Lemma clean_S f c an e : clean (S f) c an e = true ->
   | EObj items => forallb (fun it => clean f c an (fst it) && clean f c an (snd it)) items = true
   | ECond ce te fe =>
       clean f c an ce = true /\ clean f c an te = true /\ clean f c an fe = true /\
-      arm_ok (fst (ev_ f c an te)) = true /\ arm_ok (fst (ev_ f c an fe)) = true
+      arm_ok (fst (ev_ f c an te)) = true /\ arm_ok (fst (ev_ f c an fe)) = true /\
+      rt_ok (fst (ev_ f c an te)) (fst (ev_ f c an fe)) = true
   | _ => False
   end.
 Proof.
   cbn [clean]. intros H. apply andb_true_iff in H as [H1 H2]. split; [exact H1|].
   destruct e; try exact I; try exact H2; try discriminate H2.
-  - repeat (apply andb_true_iff in H2 as [H2 ?]). auto.
+  - repeat (apply andb_true_iff in H2 as [H2 ?]). repeat split; assumption.
   - apply andb_true_iff in H2. exact H2.
   - apply andb_true_iff in H2. exact H2.
 Qed.
@@ -621,12 +644,57 @@ Ltac kill D :=
   rewrite ?diag_ok_cons_err, ?diag_ok_cons_unsup in D;
   rewrite ?andb_false_r, ?andb_false_l in D; cbn [andb] in D; discriminate D.
 
+Lemma bin_tail_eq_gs op luA ruA luC ruC ldsA rdsA ldsC rdsC :
+  is_eq_op op = true ->
+  inv luA = true -> inv ruA = true -> inv luC = true -> inv ruC = true ->
+  gsb luA luC = true -> gsb ruA ruC = true ->
+  diag_ok (snd (bin_tail op luA ruA ldsA rdsA)) = true -> diag_ok (snd (bin_tail op luC ruC ldsC rdsC)) = true ->
+  gsb (fst (bin_tail op luA ruA ldsA rdsA)) (fst (bin_tail op luC ruC ldsC rdsC)) = true.
+Proof.
+  intros Ho IlA IrA IlC IrC Gl Gr DA DC.
+  assert (EA : bin_tail op luA ruA ldsA rdsA =
+               let ds := ldsA ++ rdsA in
+               if has_errors ds then (VUnk (binop_type op) rf_none, ds)
+               else match call_binop op luA ruA with
+                    | OOk res => (res, ds)
+                    | OErr _ => (VUnk (binop_type op) rf_none, ds ++ [derr S_OperationFailed []])
+                    | OUnsupported => (VUnk (binop_type op) rf_none, ds ++ [dunsupported])
+                    end) by (destruct op; try discriminate Ho; reflexivity).
+  assert (EC : bin_tail op luC ruC ldsC rdsC =
+               let ds := ldsC ++ rdsC in
+               if has_errors ds then (VUnk (binop_type op) rf_none, ds)
+               else match call_binop op luC ruC with
+                    | OOk res => (res, ds)
+                    | OErr _ => (VUnk (binop_type op) rf_none, ds ++ [derr S_OperationFailed []])
+                    | OUnsupported => (VUnk (binop_type op) rf_none, ds ++ [dunsupported])
+                    end) by (destruct op; try discriminate Ho; reflexivity).
+  rewrite EA in *. rewrite EC in *. cbv zeta in *.
+  destruct (has_errors (ldsA ++ rdsA)) eqn:HA; [cbn [snd] in DA; rewrite (diag_ok_has_errors _ HA) in DA; discriminate|].
+  destruct (has_errors (ldsC ++ rdsC)) eqn:HC; [cbn [snd] in DC; rewrite (diag_ok_has_errors _ HC) in DC; discriminate|].
+  destruct (call_binop op luA ruA) as [rA| |] eqn:EoA;
+    try (exfalso; cbn [snd] in DA; rewrite diag_ok_app, andb_false_r in DA; discriminate).
+  destruct (call_binop op luC ruC) as [rC| |] eqn:EoC;
+    try (exfalso; cbn [snd] in DC; rewrite diag_ok_app, andb_false_r in DC; discriminate).
+  cbn [fst]. apply (call_binop_eq_gs op luA ruA luC ruC rA rC Ho IlA IrA IlC IrC Gl Gr EoA EoC).
+Qed.
+
+(* conversion of an operand to the operator's parameter type *)
+Lemma conv_param_gs op a c a' c' : inv a = true -> inv c = true -> gsb a c = true ->
+  conv a (binop_param op) = COk a' -> conv c (binop_param op) = COk c' -> gsb a' c' = true.
+Proof.
+  intros Ia Ic G EA EC. destruct (is_eq_op op) eqn:Ho.
+  - assert (Hp : binop_param op = TDyn) by (destruct op; try discriminate Ho; reflexivity). rewrite Hp in EA, EC.
+    rewrite (conv_dyn_id a a' Ia EA), (conv_dyn_id c c' Ic EC). exact G.
+  - assert (Hp : is_prim (binop_param op) = true) by (destruct op; try discriminate Ho; reflexivity).
+    apply (conv_gs_prim a c _ a' c' Hp Ia Ic G EA EC).
+Qed.
+
 Lemma si_bin f op l r : SI f -> forall cA cC anA anC,
   in_fragment (EBin op l r) -> ctx_rel cA cC -> anon_rel anA anC ->
   clean (S f) cA anA (EBin op l r) = true -> clean (S f) cC anC (EBin op l r) = true ->
   gsb (fst (ev_ (S f) cA anA (EBin op l r))) (fst (ev_ (S f) cC anC (EBin op l r))) = true.
 Proof.
-  intros IH cA cC anA anC Fr R Ra KA KC. inversion Fr as [| | | | | | | |? ? ? Ho Fl Frr| | | | |]; subst.
+  intros IH cA cC anA anC Fr R Ra KA KC. inversion Fr as [| | | | | | | |? ? ? Fl Frr| | | | |]; subst.
   apply clean_S in KA as [DA [KAl KAr]]. apply clean_S in KC as [DC [KCl KCr]].
   cbn [eval_with] in *.
   destruct (ev_ f cA anA l) as [glA ldsA] eqn:EAl. destruct (ev_ f cC anC l) as [glC ldsC] eqn:ECl.
@@ -648,16 +716,938 @@ Proof.
   pose proof (conv_inv_pres _ _ _ IlC EclC) as IlvC. pose proof (conv_inv_pres _ _ _ IrC EcrC) as IrvC.
   rewrite (inv_unmark lvA IlvA), (inv_unmark rvA IrvA) in *. rewrite (inv_unmark lvC IlvC), (inv_unmark rvC IrvC) in *.
   rewrite marks_union_nil_nil in *. cbn [with_marks] in *.
-  assert (Hp : is_prim (binop_param op) = true) by (destruct op; try discriminate Ho; reflexivity).
-  assert (Hd : has_dyn (binop_param op) = false) by (destruct op; try discriminate Ho; reflexivity).
-  pose proof (conv_gs_prim glA glC _ lvA lvC Hp IlA IlC Gl EclA EclC) as Glv.
-  pose proof (conv_gs_prim grA grC _ rvA rvC Hp IrA IrC Gr EcrA EcrC) as Grv.
-  pose proof (conv_type _ _ _ EclA Hd) as TlA. pose proof (conv_type _ _ _ EcrA Hd) as TrA.
+  pose proof (conv_param_gs op glA glC lvA lvC IlA IlC Gl EclA EclC) as Glv.
+  pose proof (conv_param_gs op grA grC rvA rvC IrA IrC Gr EcrA EcrC) as Grv.
   match goal with
   | |- gsb (fst ?X) (fst ?Y) = true =>
       change X with (bin_tail op lvA rvA ldsA rdsA) in *; change Y with (bin_tail op lvC rvC ldsC rdsC) in *
   end.
+  destruct (is_eq_op op) eqn:Ho; [apply bin_tail_eq_gs; assumption|].
+  assert (Hd : has_dyn (binop_param op) = false) by (destruct op; try discriminate Ho; reflexivity).
+  pose proof (conv_type _ _ _ EclA Hd) as TlA. pose proof (conv_type _ _ _ EcrA Hd) as TrA.
   destruct op; try discriminate Ho.
   1,2: apply bin_tail_logic_gs; auto.
   all: apply bin_tail_arith_gs; auto; discriminate.
 Qed.
+
+(* ---- conditional ---------------------------------------------------------------------------------------------- *)
+Lemma is_dyn_null_eq v : is_dyn_null v = true -> v = VNull TDyn.
+Proof. destruct v; try discriminate. destruct t; try discriminate. reflexivity. Qed.
+
+Lemma arm_ok_cases v : arm_ok v = true -> has_dyn (type_of v) = false \/ v = VNull TDyn.
+Proof.
+  unfold arm_ok. intros H. apply orb_true_iff in H as [H|H].
+  - right. apply is_dyn_null_eq. exact H.
+  - left. apply negb_true_iff. exact H.
+Qed.
+
+Lemma gsb_dyn_null_iff a c : gsb a c = true -> arm_ok a = true -> is_dyn_null a = is_dyn_null c.
+Proof.
+  intros G A. destruct (is_dyn_null a) eqn:Na.
+  - apply is_dyn_null_eq in Na. subst a. apply gsb_known_eq in G; [subst c; reflexivity|reflexivity].
+  - destruct (is_dyn_null c) eqn:Nc; [|reflexivity]. exfalso.
+    apply is_dyn_null_eq in Nc. subst c.
+    destruct (arm_ok_cases a A) as [Hd| ->]; [|discriminate Na].
+    pose proof (gsb_type_eq a _ G Hd) as T. simpl in T. rewrite <- T in Hd. discriminate.
+Qed.
+
+Lemma cond_uni_eq tvA fvA tvC fvC :
+  gsb tvA tvC = true -> gsb fvA fvC = true -> arm_ok tvA = true -> arm_ok fvA = true ->
+  cond_uni tvA fvA = cond_uni tvC fvC.
+Proof.
+  intros Gt Gf At Af. unfold cond_uni.
+  rewrite <- (gsb_dyn_null_iff _ _ Gt At), <- (gsb_dyn_null_iff _ _ Gf Af).
+  assert (Tt : is_dyn_null tvA = false -> type_of tvC = type_of tvA).
+  { intros N. destruct (arm_ok_cases _ At) as [Hd| ->]; [apply (gsb_type_eq _ _ Gt Hd)|discriminate N]. }
+  assert (Tf : is_dyn_null fvA = false -> type_of fvC = type_of fvA).
+  { intros N. destruct (arm_ok_cases _ Af) as [Hd| ->]; [apply (gsb_type_eq _ _ Gf Hd)|discriminate N]. }
+  destruct (is_dyn_null tvA) eqn:N1.
+  - destruct (is_dyn_null fvA) eqn:N2.
+    + apply is_dyn_null_eq in N2. subst fvA. apply gsb_known_eq in Gf; [subst fvC; reflexivity|reflexivity].
+    + rewrite (Tf eq_refl). reflexivity.
+  - destruct (is_dyn_null fvA) eqn:N2.
+    + rewrite (Tt eq_refl). reflexivity.
+    + rewrite (Tt eq_refl), (Tf eq_refl). reflexivity.
+Qed.
+
+Lemma arm_ok_not_dyn v : arm_ok v = true -> is_dyn_null v = false -> ty_eqb (type_of v) TDyn = false.
+Proof.
+  intros A N. destruct (arm_ok_cases v A) as [Hd| ->]; [|discriminate N].
+  apply ty_eqb_neq. intros T. rewrite T in Hd. discriminate.
+Qed.
+
+Lemma cond_uni_flags tv fv rt tconv fconv :
+  arm_ok tv = true -> arm_ok fv = true -> cond_uni tv fv = inl (Some (rt, tconv, fconv)) ->
+  (tconv = false -> type_of tv = rt) /\ (fconv = false -> type_of fv = rt) /\
+  (type_of tv = TNum -> type_of fv = TNum -> rt = TNum).
+Proof.
+  unfold cond_uni. intros At Af E.
+  destruct (is_dyn_null tv) eqn:N1.
+  { injection E as <- <- <-. apply is_dyn_null_eq in N1. subst tv.
+    split; [discriminate|]. split; [reflexivity|]. discriminate. }
+  destruct (is_dyn_null fv) eqn:N2.
+  { injection E as <- <- <-. apply is_dyn_null_eq in N2. subst fv.
+    split; [reflexivity|]. split; [discriminate|]. discriminate. }
+  rewrite (arm_ok_not_dyn _ At N1), (arm_ok_not_dyn _ Af N2) in E. cbn [orb] in E.
+  destruct (unify (type_of tv) (type_of fv)) eqn:Eu; try discriminate. injection E as <- <- <-.
+  split; [|split].
+  - intros H. apply negb_false_iff in H. apply ty_eqb_eq. exact H.
+  - intros H. apply negb_false_iff in H. apply ty_eqb_eq. exact H.
+  - intros T1 T2. rewrite T1, T2 in Eu. vm_compute in Eu. injection Eu as <-. reflexivity.
+Qed.
+
+Lemma conv_bool_known c cb : inv c = true -> wholly_known c = true -> null_shape c = false ->
+  conv c TBool = COk cb -> exists b, cb = VBool b.
+Proof. intros I W N E. apply (conv_prim_known_shape c TBool cb W I N eq_refl E). Qed.
+
+(* ConditionalExpr.Value after the three evaluations and the choice of the result type, for unmarked
+   values (copy of Impl.v; the correspondence is checked by conversion in [si_cond]) *)
+Definition cond_pick (rt : ty) (cds : list diag) (bv : val) (bds : list diag) (needconv : bool) : val * list diag :=
+  if needconv then
+    match conv bv rt with
+    | COk r => (r, cds ++ bds)
+    | CErr ce => (VUnk rt rf_none, cds ++ bds ++ [derr S_InconsistentCond [FConv ce]])
+    | CUnsupported => (dyn_val, cds ++ bds ++ [dunsupported])
+    end
+  else (bv, cds ++ bds).
+
+Definition cond_tail (rt : ty) (tconv fconv : bool) (cv tv fv : val) (cds tds fds : list diag) : val * list diag :=
+  if negb (is_known cv) then cond_unk rt cds [] tv fv
+  else match conv cv TBool with
+       | CUnsupported => (VUnk rt rf_none, cds ++ [dunsupported])
+       | CErr _ => (VUnk rt rf_none, cds ++ [derr S_IncorrectCondType []])
+       | COk cb =>
+           match cb with
+           | VBool true => cond_pick rt cds tv tds tconv
+           | VBool false => cond_pick rt cds fv fds fconv
+           | _ => (dyn_val, cds ++ [dunsupported])
+           end
+       end.
+
+Lemma cond_pick_ok rt cds bv bds nc : diag_ok (snd (cond_pick rt cds bv bds nc)) = true ->
+  (nc = false -> type_of bv = rt) ->
+  picked bv rt (fst (cond_pick rt cds bv bds nc)).
+Proof.
+  unfold cond_pick. intros D Hf. destruct nc.
+  - destruct (conv bv rt) as [r| |] eqn:E; [right; exact E|kill D|kill D].
+  - left. split; [reflexivity|apply Hf; reflexivity].
+Qed.
+
+Lemma cond_pick_gs rt cdsA cdsC xA xC bdsA bdsC nc :
+  inv xA = true -> inv xC = true -> gsb xA xC = true ->
+  (has_dyn (type_of xA) = false \/ xA = VNull TDyn) ->
+  (has_dyn rt = false \/ xA = VNull TDyn) ->
+  diag_ok (snd (cond_pick rt cdsA xA bdsA nc)) = true -> diag_ok (snd (cond_pick rt cdsC xC bdsC nc)) = true ->
+  gsb (fst (cond_pick rt cdsA xA bdsA nc)) (fst (cond_pick rt cdsC xC bdsC nc)) = true.
+Proof.
+  unfold cond_pick. intros IA IC G Ax Hrt DA DC. destruct nc; [|exact G].
+  destruct (conv xA rt) as [rA| |] eqn:EA; [|kill DA|kill DA].
+  destruct (conv xC rt) as [rC| |] eqn:EC; [|kill DC|kill DC]. cbn [fst].
+  destruct Ax as [Hd| ->].
+  - destruct Hrt as [Hr| ->].
+    + apply (conv_gs_nodyn xA xC rt rA rC IA IC G Hd Hr EA EC).
+    + unfold conv in EA, EC. apply (convert_known_gs _ _ _ _ _ _ _ IA eq_refl G EA EC).
+  - unfold conv in EA, EC. apply (convert_known_gs _ _ _ _ _ _ _ IA eq_refl G EA EC).
+Qed.
+
+Lemma cond_tail_gs rt tconv fconv cvA tvA fvA cvC tvC fvC cdsA tdsA fdsA cdsC tdsC fdsC :
+  inv cvA = true -> inv tvA = true -> inv fvA = true -> inv cvC = true -> inv tvC = true -> inv fvC = true ->
+  gsb cvA cvC = true -> gsb tvA tvC = true -> gsb fvA fvC = true ->
+  null_shape cvA = false -> null_shape cvC = false ->
+  (has_dyn (type_of tvA) = false \/ tvA = VNull TDyn) -> (has_dyn (type_of fvA) = false \/ fvA = VNull TDyn) ->
+  (tconv = false -> type_of tvC = rt) -> (fconv = false -> type_of fvC = rt) ->
+  (type_of tvA = TNum -> type_of fvA = TNum -> rt = TNum) ->
+  (has_dyn rt = false \/ (tvA = VNull TDyn /\ fvA = VNull TDyn /\ rt = TDyn)) ->
+  diag_ok (snd (cond_tail rt tconv fconv cvA tvA fvA cdsA tdsA fdsA)) = true ->
+  diag_ok (snd (cond_tail rt tconv fconv cvC tvC fvC cdsC tdsC fdsC)) = true ->
+  gsb (fst (cond_tail rt tconv fconv cvA tvA fvA cdsA tdsA fdsA))
+      (fst (cond_tail rt tconv fconv cvC tvC fvC cdsC tdsC fdsC)) = true.
+Proof.
+  intros IcA ItA IfA IcC ItC IfC Gc Gt Gf NcA NcC At Af FtC FfC Hnum Hrt DA DC.
+  pose proof (gsb_wk _ _ Gc) as WcC.
+  unfold cond_tail in DC |- *.
+  assert (KcC : is_known cvC = true).
+  { rewrite (inv_is_known _ IcC). destruct cvC; try reflexivity. discriminate WcC. }
+  rewrite KcC in DC |- *. cbn [negb] in DC |- *.
+  destruct (conv cvC TBool) as [cbC| |] eqn:EcbC; [|kill DC|kill DC].
+  destruct (conv_bool_known cvC cbC IcC WcC NcC EcbC) as [b ->].
+  set (xC := if b then tvC else fvC). set (xA := if b then tvA else fvA).
+  set (nc := if b then tconv else fconv). set (bdsC := if b then tdsC else fdsC).
+  assert (EC : (if b then cond_pick rt cdsC tvC tdsC tconv else cond_pick rt cdsC fvC fdsC fconv)
+               = cond_pick rt cdsC xC bdsC nc) by (destruct b; reflexivity).
+  assert (EC' : match VBool b with
+                | VBool true => cond_pick rt cdsC tvC tdsC tconv
+                | VBool false => cond_pick rt cdsC fvC fdsC fconv
+                | _ => (dyn_val, cdsC ++ [dunsupported]) end = cond_pick rt cdsC xC bdsC nc) by (destruct b; reflexivity).
+  rewrite EC' in DC |- *.
+  assert (Gx : gsb xA xC = true) by (unfold xA, xC; destruct b; assumption).
+  assert (IxA : inv xA = true) by (unfold xA; destruct b; assumption).
+  assert (IxC : inv xC = true) by (unfold xC; destruct b; assumption).
+  assert (Ax : has_dyn (type_of xA) = false \/ xA = VNull TDyn) by (unfold xA; destruct b; assumption).
+  assert (Fx : nc = false -> type_of xC = rt) by (unfold nc, xC; destruct b; assumption).
+  pose proof (cond_pick_ok rt cdsC xC bdsC nc DC Fx) as PC.
+  unfold cond_tail in DA |- *.
+  destruct (negb (is_known cvA)) eqn:KcA.
+  - (* unknown condition *)
+    destruct Hrt as [Hr|[-> [-> ->]]].
+    + apply (cond_unk_gs rt cdsA tvA fvA xC _ ItA IfA IxC Hr At Af Hnum); [|exact PC].
+      unfold xC. destruct b; [left; exact Gt|right; exact Gf].
+    + (* both arms are literal nulls *)
+      apply gsb_known_eq in Gt; [|reflexivity]. apply gsb_known_eq in Gf; [|reflexivity]. subst tvC fvC.
+      rewrite cond_unk_cases. cbn [null_shape andb fst].
+      destruct PC as [[-> _]|E].
+      * unfold xC. destruct b; reflexivity.
+      * unfold xC in E. assert (E' : conv (VNull TDyn) TDyn = COk (fst (cond_pick TDyn cdsC xC bdsC nc))) by (destruct b; exact E).
+        assert (Ev : conv (VNull TDyn) TDyn = COk (VNull TDyn)) by (vm_compute; reflexivity).
+        rewrite Ev in E'. injection E' as <-. reflexivity.
+  - (* known condition *)
+    destruct (conv cvA TBool) as [cbA| |] eqn:EcbA; [|kill DA|kill DA].
+    pose proof (conv_gs_prim cvA cvC TBool cbA (VBool b) eq_refl IcA IcC Gc EcbA EcbC) as Gcb.
+    destruct cbA; try (kill DA); try discriminate Gcb.
+    simpl in Gcb. apply Bool.eqb_prop in Gcb. subst b0.
+      set (bdsA := if b then tdsA else fdsA).
+      assert (EA' : match VBool b with
+                    | VBool true => cond_pick rt cdsA tvA tdsA tconv
+                    | VBool false => cond_pick rt cdsA fvA fdsA fconv
+                    | _ => (dyn_val, cdsA ++ [dunsupported]) end = cond_pick rt cdsA xA bdsA nc) by (destruct b; reflexivity).
+      rewrite EA' in DA |- *.
+      apply cond_pick_gs; try assumption.
+      destruct Hrt as [Hr|[Et [Ef _]]]; [left; exact Hr|right]. unfold xA. destruct b; assumption.
+Qed.
+
+
+Lemma si_cond f ce te fe : SI f -> forall cA cC anA anC,
+  in_fragment (ECond ce te fe) -> ctx_rel cA cC -> anon_rel anA anC ->
+  clean (S f) cA anA (ECond ce te fe) = true -> clean (S f) cC anC (ECond ce te fe) = true ->
+  gsb (fst (ev_ (S f) cA anA (ECond ce te fe))) (fst (ev_ (S f) cC anC (ECond ce te fe))) = true.
+Proof.
+  intros IH cA cC anA anC Fr R Ra KA KC. inversion Fr as [| | | | | | | | | |? ? ? Fc Ft Ff| | |]; subst.
+  apply clean_S in KA as [DA [KAc [KAt [KAf [AtA [AfA RtA]]]]]].
+  apply clean_S in KC as [DC [KCc [KCt [KCf [AtC [AfC RtC]]]]]].
+  cbn [eval_with] in DA, DC |- *.
+  destruct (ev_ f cA anA te) as [tvA tdA] eqn:EAt. destruct (ev_ f cC anC te) as [tvC tdC] eqn:ECt.
+  destruct (ev_ f cA anA fe) as [fvA fdA] eqn:EAf. destruct (ev_ f cC anC fe) as [fvC fdC] eqn:ECf.
+  destruct (sub_facts f te cA cC anA anC _ _ _ _ IH Ft R Ra KAt KCt EAt ECt) as [ItA [ItC [Gt [D1 D3]]]].
+  destruct (sub_facts f fe cA cC anA anC _ _ _ _ IH Ff R Ra KAf KCf EAf ECf) as [IfA [IfC [Gf [D2 D4]]]].
+  cbn [fst] in AtA, AfA, AtC, AfC, RtA, RtC.
+  assert (U1 : has_unsupported tdA || has_unsupported fdA = false).
+  { apply diag_ok_elim in D1 as [_ ->]. apply diag_ok_elim in D2 as [_ ->]. reflexivity. }
+  assert (U2 : has_unsupported tdC || has_unsupported fdC = false).
+  { apply diag_ok_elim in D3 as [_ ->]. apply diag_ok_elim in D4 as [_ ->]. reflexivity. }
+  rewrite U1 in DA |- *. rewrite U2 in DC |- *.
+  match type of DA with
+  | context [match ?u with inl _ => _ | inr _ => _ end] => change u with (cond_uni tvA fvA) in DA |- *
+  end.
+  match type of DC with
+  | context [match ?u with inl _ => _ | inr _ => _ end] => change u with (cond_uni tvC fvC) in DC |- *
+  end.
+  pose proof (cond_uni_eq tvA fvA tvC fvC Gt Gf AtA AfA) as Eu. rewrite <- Eu in DC |- *.
+  unfold rt_ok in RtA.
+  destruct (cond_uni tvA fvA) as [[[[rt tconv] fconv]|]|[|]] eqn:EuA; try (kill DA).
+  destruct (cond_uni_flags tvA fvA rt tconv fconv AtA AfA EuA) as [_ [_ HnumA]].
+  destruct (cond_uni_flags tvC fvC rt tconv fconv AtC AfC (eq_sym Eu)) as [FtC [FfC _]].
+  destruct (ev_ f cA anA ce) as [cvA cdA] eqn:EAc. destruct (ev_ f cC anC ce) as [cvC cdC] eqn:ECc.
+  destruct (sub_facts f ce cA cC anA anC _ _ _ _ IH Fc R Ra KAc KCc EAc ECc) as [IcA [IcC [Gc [D5 D6]]]].
+  rewrite (inv_is_null _ IcA) in DA |- *. rewrite (inv_is_null _ IcC) in DC |- *.
+  destruct (null_shape cvA) eqn:NcA; [kill DA|]. destruct (null_shape cvC) eqn:NcC; [kill DC|].
+  rewrite (inv_unmark cvA IcA), (inv_unmark tvA ItA), (inv_unmark fvA IfA) in DA |- *.
+  rewrite (inv_unmark cvC IcC), (inv_unmark tvC ItC), (inv_unmark fvC IfC) in DC |- *.
+  rewrite (inv_deep_marks tvA ItA), (inv_deep_marks fvA IfA) in DA |- *.
+  rewrite (inv_deep_marks tvC ItC), (inv_deep_marks fvC IfC) in DC |- *.
+  change (marks_unions [[]; []; []]) with (@nil Z) in DA, DC |- *.
+  rewrite marks_union_nil_nil in DA, DC |- *.
+  match goal with
+  | |- gsb (fst ?X) (fst ?Y) = true =>
+      change X with (cond_tail rt tconv fconv cvA tvA fvA cdA tdA fdA) in DA |- *;
+      change Y with (cond_tail rt tconv fconv cvC tvC fvC cdC tdC fdC) in DC |- *
+  end.
+  apply cond_tail_gs; try assumption.
+  - apply (arm_ok_cases _ AtA).
+  - apply (arm_ok_cases _ AfA).
+  - (* the result type *)
+    apply orb_true_iff in RtA as [H|H]; [left; apply negb_true_iff; exact H|right].
+    apply andb_true_iff in H as [H1 H2]. apply is_dyn_null_eq in H1, H2. subst tvA fvA.
+    repeat split. unfold cond_uni in EuA. simpl in EuA. injection EuA as <- _ _. reflexivity.
+Qed.
+
+(* ---- templates ---------------------------------------------------------------------------------------------- *)
+Lemma is_prefix_refl a : is_prefix_of a a = true.
+Proof. induction a as [|x a IH]; simpl; [reflexivity|]. rewrite Z.eqb_refl, IH. reflexivity. Qed.
+Lemma is_prefix_app a c s : is_prefix_of a c = true -> is_prefix_of a (c ++ s) = true.
+Proof.
+  revert c. induction a as [|x a IH]; intros [|y c] H; simpl in *; try reflexivity; try discriminate.
+  apply andb_true_iff in H as [H1 H2]. rewrite H1. simpl. apply IH. exact H2.
+Qed.
+Lemma is_prefix_firstn n a c : is_prefix_of a c = true -> is_prefix_of (firstn n a) c = true.
+Proof.
+  revert a c. induction n as [|n IH]; intros [|x a] [|y c] H; simpl in *; try reflexivity; try discriminate.
+  apply andb_true_iff in H as [H1 H2]. rewrite H1. simpl. apply IH. exact H2.
+Qed.
+
+Definition tmpl_state := (list Z * bool * marks * list diag)%type.
+Definition tmpl_rel (stA stC : tmpl_state) : Prop :=
+  let '(bA, kA, _, _) := stA in let '(bC, kC, _, _) := stC in
+  kC = true /\ (if kA then bA = bC else is_prefix_of bA bC = true).
+
+(* the step of TemplateExpr.Value (copy of Impl.v, ETmpl; checked by conversion in [si_tmpl]) *)
+Definition tmpl_step (ev : expr -> val * list diag) (st : tmpl_state) (p : expr) : tmpl_state :=
+  let '(buf, known, mk, ds) := st in
+  let '(pv, pds) := ev p in
+  let ds := ds ++ pds in
+  if is_null pv then (buf, known, mk, ds ++ [derr S_InvalidTemplateInterp []])
+  else
+  let '(pu, pm) := unmark pv in
+  let mk := marks_union mk pm in
+  if negb (is_known pv) then (buf, false, mk, ds)
+  else match conv pu TStr with
+       | CUnsupported => (buf, known, mk, ds ++ [dunsupported])
+       | CErr ce => (buf, known, mk, ds ++ [derr S_InvalidTemplateInterp [FConv ce]])
+       | COk (VStr s) => if known && negb (has_errors ds) then (buf ++ s, known, mk, ds) else (buf, known, mk, ds)
+       | COk _ => (buf, known, mk, ds ++ [dunsupported])
+       end.
+
+Lemma tmpl_step_mono ev st p : diag_ok (tmpl_ds (tmpl_step ev st p)) = true -> diag_ok (tmpl_ds st) = true.
+Proof.
+  destruct st as [[[buf known] mk] ds]. unfold tmpl_step. intros D.
+  repeat match type of D with
+         | diag_ok (tmpl_ds (match ?x with _ => _ end)) = true => destruct_scrut x
+         end;
+  cbn [tmpl_ds] in D |- *; repeat rewrite diag_ok_app in D;
+  repeat match type of D with (_ && _ = true) => apply andb_true_iff in D as [D _] end; exact D.
+Qed.
+
+Lemma tmpl_fold_rel evA evC : forall ps stA stC,
+  (forall p, In p ps -> inv (fst (evA p)) = true /\ inv (fst (evC p)) = true /\ gsb (fst (evA p)) (fst (evC p)) = true) ->
+  tmpl_rel stA stC ->
+  diag_ok (tmpl_ds (fold_left (tmpl_step evA) ps stA)) = true ->
+  diag_ok (tmpl_ds (fold_left (tmpl_step evC) ps stC)) = true ->
+  tmpl_rel (fold_left (tmpl_step evA) ps stA) (fold_left (tmpl_step evC) ps stC).
+Proof.
+  induction ps as [|p ps IH]; intros stA stC Hp Hr DA DC; simpl in *; [exact Hr|].
+  apply IH; try assumption; [intros q Hq; apply Hp; right; exact Hq|].
+  pose proof (fold_ds_ok (tmpl_step evA) tmpl_ds (tmpl_step_mono evA) ps _ DA) as DsA.
+  pose proof (fold_ds_ok (tmpl_step evC) tmpl_ds (tmpl_step_mono evC) ps _ DC) as DsC.
+  destruct (Hp p (or_introl eq_refl)) as [IA [IC G]].
+  destruct stA as [[[bA kA] mA] dA]. destruct stC as [[[bC kC] mC] dC]. destruct Hr as [-> Hr].
+  unfold tmpl_step in DsA, DsC |- *.
+  destruct (evA p) as [pvA pdA]. destruct (evC p) as [pvC pdC]. cbn [fst] in IA, IC, G.
+  pose proof (gsb_wk _ _ G) as WC.
+  rewrite (inv_is_null _ IA) in DsA |- *. rewrite (inv_is_null _ IC) in DsC |- *.
+  destruct (null_shape pvA) eqn:NA; [exfalso; cbn [tmpl_ds] in DsA; rewrite diag_ok_app, andb_false_r in DsA; discriminate|].
+  destruct (null_shape pvC) eqn:NC; [exfalso; cbn [tmpl_ds] in DsC; rewrite diag_ok_app, andb_false_r in DsC; discriminate|].
+  rewrite (inv_unmark pvA IA) in DsA |- *. rewrite (inv_unmark pvC IC) in DsC |- *.
+  assert (KC : is_known pvC = true).
+  { rewrite (inv_is_known _ IC). destruct pvC; try reflexivity. discriminate WC. }
+  rewrite KC in DsC |- *. cbn [negb] in DsC |- *.
+  destruct (conv pvC TStr) as [ksC| |] eqn:EC;
+    try (exfalso; cbn [tmpl_ds] in DsC; rewrite diag_ok_app, andb_false_r in DsC; discriminate).
+  destruct (conv_prim_known_shape pvC TStr ksC WC IC NC eq_refl EC) as [s ->].
+  assert (HeC : has_errors (dC ++ pdC) = false).
+  { destruct (true && negb (has_errors (dC ++ pdC))) eqn:Hc; cbn [tmpl_ds] in DsC; apply diag_ok_elim in DsC; tauto. }
+  rewrite HeC in DsC |- *. cbn [andb negb] in DsC |- *.
+  destruct (negb (is_known pvA)) eqn:KA.
+  - (* unknown part: the buffer is frozen *)
+    split; [reflexivity|]. destruct kA; [subst bC; apply is_prefix_app, is_prefix_refl|apply is_prefix_app; exact Hr].
+  - destruct (conv pvA TStr) as [ksA| |] eqn:EA;
+      try (exfalso; cbn [tmpl_ds] in DsA; rewrite diag_ok_app, andb_false_r in DsA; discriminate).
+    pose proof (conv_gs_prim pvA pvC TStr ksA (VStr s) eq_refl IA IC G EA EC) as Gk.
+    destruct ksA; try (exfalso; cbn [tmpl_ds] in DsA; rewrite diag_ok_app, andb_false_r in DsA; discriminate).
+    simpl in Gk. apply str_eqb_eq in Gk. subst s0.
+    assert (HeA : has_errors (dA ++ pdA) = false).
+    { destruct (kA && negb (has_errors (dA ++ pdA))) eqn:Hc; cbn [tmpl_ds] in DsA; apply diag_ok_elim in DsA; tauto. }
+    rewrite HeA. cbn [negb]. rewrite andb_true_r.
+    destruct kA; cbn [tmpl_rel]; (split; [reflexivity|]).
+    + subst bC. reflexivity.
+    + apply is_prefix_app. exact Hr.
+Qed.
+
+Lemma tmpl_fold_mk_nil ev : forall ps st,
+  (forall p, In p ps -> inv (fst (ev p)) = true) -> tmpl_mk_nil st -> tmpl_mk_nil (fold_left (tmpl_step ev) ps st).
+Proof.
+  induction ps as [|p ps IHp]; intros st Hp Hst; simpl; [exact Hst|].
+  apply IHp; [intros q Hq; apply Hp; right; exact Hq|].
+  destruct st as [[[buf known] mk] ds]. simpl in Hst. subst mk. unfold tmpl_step.
+  pose proof (Hp p (or_introl eq_refl)) as Ip. destruct (ev p) as [pv pds]. simpl in Ip.
+  destruct (is_null pv); [reflexivity|]. rewrite (inv_unmark pv Ip). rewrite marks_union_nil_nil.
+  destruct (negb (is_known pv)); [reflexivity|].
+  destruct (conv pv TStr) as [ks| |]; try reflexivity.
+  destruct ks; try reflexivity. destruct (known && negb (has_errors (ds ++ pds))); reflexivity.
+Qed.
+
+Lemma si_tmpl f parts : SI f -> forall cA cC anA anC,
+  in_fragment (ETmpl parts) -> ctx_rel cA cC -> anon_rel anA anC ->
+  clean (S f) cA anA (ETmpl parts) = true -> clean (S f) cC anC (ETmpl parts) = true ->
+  gsb (fst (ev_ (S f) cA anA (ETmpl parts))) (fst (ev_ (S f) cC anC (ETmpl parts))) = true.
+Proof.
+  intros IH cA cC anA anC Fr R Ra KA KC. inversion Fr as [| | | | | | | | | | |? Fp| |]; subst.
+  apply clean_S in KA as [DA KA']. apply clean_S in KC as [DC KC'].
+  cbn [eval_with] in DA, DC |- *.
+  change (fold_left _ parts ([], true, [], [])) with (fold_left (tmpl_step (ev_ f cA anA)) parts ([], true, [], [])) in DA |- * at 1.
+  match type of DC with
+  | context [fold_left ?stp parts ?init] =>
+      change (fold_left stp parts init) with (fold_left (tmpl_step (ev_ f cC anC)) parts ([], true, [], [])) in DC |- *
+  end.
+  assert (Hp : forall p, In p parts ->
+            inv (fst (ev_ f cA anA p)) = true /\ inv (fst (ev_ f cC anC p)) = true /\
+            gsb (fst (ev_ f cA anA p)) (fst (ev_ f cC anC p)) = true).
+  { intros p Hin. rewrite forallb_Forall in KA', KC'. rewrite Forall_forall in *.
+    destruct (ev_ f cA anA p) as [vA dA] eqn:EA. destruct (ev_ f cC anC p) as [vC dC] eqn:EC.
+    destruct (sub_facts f p cA cC anA anC vA dA vC dC IH (Fp p Hin) R Ra (KA' p Hin) (KC' p Hin) EA EC) as [I1 [I2 [G _]]].
+    auto. }
+  assert (DfA : diag_ok (tmpl_ds (fold_left (tmpl_step (ev_ f cA anA)) parts ([], true, [], []))) = true).
+  { destruct (fold_left (tmpl_step (ev_ f cA anA)) parts ([], true, [], [])) as [[[b k] m] d]. exact DA. }
+  assert (DfC : diag_ok (tmpl_ds (fold_left (tmpl_step (ev_ f cC anC)) parts ([], true, [], []))) = true).
+  { destruct (fold_left (tmpl_step (ev_ f cC anC)) parts ([], true, [], [])) as [[[b k] m] d]. exact DC. }
+  pose proof (tmpl_fold_rel (ev_ f cA anA) (ev_ f cC anC) parts ([], true, [], []) ([], true, [], []) Hp
+                (conj eq_refl eq_refl) DfA DfC) as Hr.
+  pose proof (tmpl_fold_mk_nil (ev_ f cA anA) parts ([], true, [], []) (fun p Hin => proj1 (Hp p Hin)) eq_refl) as MA.
+  pose proof (tmpl_fold_mk_nil (ev_ f cC anC) parts ([], true, [], []) (fun p Hin => proj1 (proj2 (Hp p Hin))) eq_refl) as MC.
+  destruct (fold_left (tmpl_step (ev_ f cA anA)) parts ([], true, [], [])) as [[[bA kA] mA] dA].
+  destruct (fold_left (tmpl_step (ev_ f cC anC)) parts ([], true, [], [])) as [[[bC kC] mC] dC].
+  destruct Hr as [-> Hr]. simpl in MA, MC. subst mA mC. cbn [negb fst snd with_marks] in DA, DC |- *.
+  destruct kA; cbn [negb].
+  - subst bC. simpl. apply str_eqb_refl.
+  - destruct (negb (has_errors dA) && negb (str_eqb bA [])); [|reflexivity].
+    unfold gsb, conc. cbn [wholly_known type_of conf ty_eqb refn_ok r_prefix andb].
+    apply is_prefix_firstn. exact Hr.
+Qed.
+
+(* ---- object constructor ----------------------------------------------------------------------------------------- *)
+Definition obj_state := (list (list Z * val) * list marks * bool * list diag)%type.
+Definition obj_step (ev : expr -> val * list diag) (st : obj_state) (it : expr * expr) : obj_state :=
+  let '(vals, mks, known, ds) := st in
+  let '(k, kds) := ev (fst it) in
+  let '(v, vds) := ev (snd it) in
+  let ds := ds ++ kds ++ vds in
+  if has_errors kds then (vals, mks, false, ds)
+  else if is_null k then (vals, mks, false, ds ++ [derr S_NullKey []])
+  else
+  let '(ku, km) := unmark k in
+  let mks := mks ++ [km] in
+  match conv ku TStr with
+  | CUnsupported => (vals, mks, false, ds ++ [dunsupported])
+  | CErr ce => (vals, mks, false, ds ++ [derr S_IncorrectKeyType [FConv ce]])
+  | COk ks =>
+      match ks with
+      | VStr s => (assoc_set s v vals, mks, known, ds)
+      | _ => (vals, mks, false, ds)
+      end
+  end.
+
+Definition kv_rel (p q : list Z * val) : bool := str_eqb (fst p) (fst q) && gsb (snd p) (snd q).
+Definition obj_rel (stA stC : obj_state) : Prop :=
+  let '(vA, _, kA, _) := stA in let '(vC, _, kC, _) := stC in
+  kC = true /\ Forall (fun p => wholly_known (snd p) = true) vC /\ (kA = true -> all2 kv_rel vA vC = true).
+
+Lemma obj_step_mono ev st it : diag_ok (obj_ds (obj_step ev st it)) = true -> diag_ok (obj_ds st) = true.
+Proof.
+  destruct st as [[[vals mks] known] ds]. unfold obj_step. intros D.
+  repeat match type of D with
+         | diag_ok (obj_ds (match ?x with _ => _ end)) = true => destruct_scrut x
+         end;
+  cbn [obj_ds] in D |- *; repeat rewrite diag_ok_app in D;
+  repeat match type of D with (_ && _ = true) => apply andb_true_iff in D as [D _] end; exact D.
+Qed.
+
+Lemma assoc_set_all2 s v v' la lc :
+  all2 kv_rel la lc = true -> gsb v v' = true -> all2 kv_rel (assoc_set s v la) (assoc_set s v' lc) = true.
+Proof.
+  intros H G. revert lc H. induction la as [|[ka xa] ra IH]; intros [|[kc xc] rc] H; simpl in *; try discriminate.
+  - unfold kv_rel. simpl. rewrite str_eqb_refl, G. reflexivity.
+  - apply andb_true_iff in H as [H1 H2]. unfold kv_rel in H1. simpl in H1. apply andb_true_iff in H1 as [Hk Hx].
+    apply str_eqb_eq in Hk. subst kc.
+    destruct (str_eqb s ka).
+    + simpl. unfold kv_rel at 1. simpl. rewrite str_eqb_refl, G. exact H2.
+    + destruct (str_ltb s ka).
+      * simpl. unfold kv_rel at 1. simpl. rewrite str_eqb_refl, G. simpl.
+        unfold kv_rel at 1. simpl. rewrite str_eqb_refl, Hx. exact H2.
+      * simpl. unfold kv_rel at 1. simpl. rewrite str_eqb_refl, Hx. simpl. apply IH. exact H2.
+Qed.
+
+Lemma assoc_set_wk s v (l : list (list Z * val)) :
+  wholly_known v = true -> Forall (fun p => wholly_known (snd p) = true) l ->
+  Forall (fun p => wholly_known (snd p) = true) (assoc_set s v l).
+Proof.
+  intros W. induction l as [|[k' v'] r IHl]; intros F; simpl.
+  - constructor; [exact W|constructor].
+  - inversion F; subst. destruct (str_eqb s k'); [constructor; assumption|].
+    destruct (str_ltb s k'); [constructor; [exact W|exact F]|]. constructor; auto.
+Qed.
+
+Definition item_facts (evA evC : expr -> val * list diag) (e : expr) : Prop :=
+  inv (fst (evA e)) = true /\ inv (fst (evC e)) = true /\ gsb (fst (evA e)) (fst (evC e)) = true /\
+  diag_ok (snd (evA e)) = true /\ diag_ok (snd (evC e)) = true.
+
+Lemma obj_fold_rel evA evC : forall its stA stC,
+  (forall it, In it its -> item_facts evA evC (fst it) /\ item_facts evA evC (snd it)) ->
+  obj_rel stA stC ->
+  diag_ok (obj_ds (fold_left (obj_step evA) its stA)) = true ->
+  diag_ok (obj_ds (fold_left (obj_step evC) its stC)) = true ->
+  obj_rel (fold_left (obj_step evA) its stA) (fold_left (obj_step evC) its stC).
+Proof.
+  induction its as [|it its IH]; intros stA stC Hp Hr DA DC; simpl in *; [exact Hr|].
+  apply IH; try assumption; [intros q Hq; apply Hp; right; exact Hq|].
+  pose proof (fold_ds_ok (obj_step evA) obj_ds (obj_step_mono evA) its _ DA) as DsA.
+  pose proof (fold_ds_ok (obj_step evC) obj_ds (obj_step_mono evC) its _ DC) as DsC.
+  destruct (Hp it (or_introl eq_refl)) as [[IkA [IkC [Gk [DkA DkC]]]] [IvA [IvC [Gv _]]]].
+  destruct stA as [[[vA mA] kA] dA]. destruct stC as [[[vC mC] kC] dC]. destruct Hr as [-> [WvC Hr]].
+  unfold obj_step in DsA, DsC |- *.
+  destruct (evA (fst it)) as [keyA kdA]. destruct (evC (fst it)) as [keyC kdC].
+  destruct (evA (snd it)) as [valA vdA]. destruct (evC (snd it)) as [valC vdC].
+  cbn [fst snd] in *.
+  apply diag_ok_elim in DkA as [HkA _]. apply diag_ok_elim in DkC as [HkC _].
+  rewrite HkA in DsA |- *. rewrite HkC in DsC |- *.
+  pose proof (gsb_wk _ _ Gk) as WkC. pose proof (gsb_wk _ _ Gv) as WvalC.
+  rewrite (inv_is_null _ IkA) in DsA |- *. rewrite (inv_is_null _ IkC) in DsC |- *.
+  destruct (null_shape keyA) eqn:NA; [exfalso; cbn [obj_ds] in DsA; rewrite !diag_ok_app, !andb_false_r in DsA; discriminate|].
+  destruct (null_shape keyC) eqn:NC; [exfalso; cbn [obj_ds] in DsC; rewrite !diag_ok_app, !andb_false_r in DsC; discriminate|].
+  rewrite (inv_unmark keyA IkA) in DsA |- *. rewrite (inv_unmark keyC IkC) in DsC |- *.
+  destruct (conv keyC TStr) as [ksC| |] eqn:EC;
+    try (exfalso; cbn [obj_ds] in DsC; rewrite !diag_ok_app, !andb_false_r in DsC; discriminate).
+  destruct (conv_prim_known_shape keyC TStr ksC WkC IkC NC eq_refl EC) as [s ->].
+  destruct (conv keyA TStr) as [ksA| |] eqn:EA;
+    try (exfalso; cbn [obj_ds] in DsA; rewrite !diag_ok_app, !andb_false_r in DsA; discriminate).
+  pose proof (conv_gs_prim keyA keyC TStr ksA (VStr s) eq_refl IkA IkC Gk EA EC) as Gks.
+  assert (WC' : Forall (fun p : list Z * val => wholly_known (snd p) = true) (assoc_set s valC vC))
+    by (apply assoc_set_wk; assumption).
+  destruct ksA; try (cbn [obj_rel]; split; [reflexivity|split; [exact WC'|discriminate]]).
+  simpl in Gks. apply str_eqb_eq in Gks. subst s0.
+  cbn [obj_rel]. split; [reflexivity|]. split; [exact WC'|].
+  intros Hk. apply assoc_set_all2; [apply Hr; exact Hk|exact Gv].
+Qed.
+
+Lemma obj_fold_mk_nil ev : forall its st,
+  (forall it, In it its -> inv (fst (ev (fst it))) = true) -> obj_inv_st st ->
+  (forall it, In it its -> inv (fst (ev (snd it))) = true) ->
+  obj_inv_st (fold_left (obj_step ev) its st).
+Proof.
+  induction its as [|it its IHi]; intros st Hk Hst Hv; simpl; [exact Hst|].
+  apply IHi; [intros q Hq; apply Hk; right; exact Hq| |intros q Hq; apply Hv; right; exact Hq].
+  destruct st as [[[vals mks] known] ds]. destruct Hst as [Hvals Hm]. unfold obj_step.
+  pose proof (Hk it (or_introl eq_refl)) as Ik. destruct (ev (fst it)) as [k kds]. simpl in Ik.
+  pose proof (Hv it (or_introl eq_refl)) as Iv. destruct (ev (snd it)) as [v vds]. simpl in Iv.
+  destruct (has_errors kds); [split; assumption|].
+  destruct (is_null k); [split; assumption|].
+  rewrite (inv_unmark k Ik).
+  assert (Hm' : Forall (fun m : marks => m = []) (mks ++ [[]])).
+  { apply Forall_app. split; [exact Hm|constructor; [reflexivity|constructor]]. }
+  destruct (conv k TStr) as [ks| |]; try (split; assumption).
+  destruct ks; try (split; assumption). split; [apply assoc_set_inv; assumption|exact Hm'].
+Qed.
+
+Lemma si_obj f items : SI f -> forall cA cC anA anC,
+  in_fragment (EObj items) -> ctx_rel cA cC -> anon_rel anA anC ->
+  clean (S f) cA anA (EObj items) = true -> clean (S f) cC anC (EObj items) = true ->
+  gsb (fst (ev_ (S f) cA anA (EObj items))) (fst (ev_ (S f) cC anC (EObj items))) = true.
+Proof.
+  intros IH cA cC anA anC Fr R Ra KA KC. inversion Fr as [| | | | |? Fi| | | | | | | |]; subst.
+  apply clean_S in KA as [DA KA']. apply clean_S in KC as [DC KC'].
+  cbn [eval_with] in DA, DC |- *.
+  change (fold_left _ items ([], [], true, [])) with (fold_left (obj_step (ev_ f cA anA)) items ([], [], true, [])) in DA |- * at 1.
+  match type of DC with
+  | context [fold_left ?stp items ?init] =>
+      change (fold_left stp items init) with (fold_left (obj_step (ev_ f cC anC)) items ([], [], true, [])) in DC |- *
+  end.
+  assert (Hf : forall e, in_fragment e -> clean f cA anA e = true -> clean f cC anC e = true ->
+            item_facts (ev_ f cA anA) (ev_ f cC anC) e).
+  { intros e Fe K1 K2. unfold item_facts.
+    destruct (ev_ f cA anA e) as [vA dA] eqn:EA. destruct (ev_ f cC anC e) as [vC dC] eqn:EC.
+    destruct (sub_facts f e cA cC anA anC vA dA vC dC IH Fe R Ra K1 K2 EA EC) as [I1 [I2 [G [D1 D2]]]]. auto. }
+  assert (Hp : forall it, In it items ->
+            item_facts (ev_ f cA anA) (ev_ f cC anC) (fst it) /\ item_facts (ev_ f cA anA) (ev_ f cC anC) (snd it)).
+  { intros it Hin. rewrite forallb_Forall in KA', KC'. rewrite Forall_forall in *.
+    destruct (Fi it Hin) as [Fk Fv].
+    pose proof (KA' it Hin) as K1. pose proof (KC' it Hin) as K2.
+    apply andb_true_iff in K1 as [K1k K1v]. apply andb_true_iff in K2 as [K2k K2v].
+    split; apply Hf; assumption. }
+  assert (DfA : diag_ok (obj_ds (fold_left (obj_step (ev_ f cA anA)) items ([], [], true, []))) = true).
+  { destruct (fold_left (obj_step (ev_ f cA anA)) items ([], [], true, [])) as [[[v m] k] d]. destruct (negb k); exact DA. }
+  assert (DfC : diag_ok (obj_ds (fold_left (obj_step (ev_ f cC anC)) items ([], [], true, []))) = true).
+  { destruct (fold_left (obj_step (ev_ f cC anC)) items ([], [], true, [])) as [[[v m] k] d]. destruct (negb k); exact DC. }
+  assert (R0 : obj_rel ([], [], true, []) ([], [], true, [])) by (split; [reflexivity|split; [constructor|reflexivity]]).
+  pose proof (obj_fold_rel (ev_ f cA anA) (ev_ f cC anC) items _ _ Hp R0 DfA DfC) as Hr.
+  assert (I0 : obj_inv_st ([], [], true, [])) by (split; constructor).
+  pose proof (obj_fold_mk_nil (ev_ f cA anA) items _ (fun it Hin => proj1 (proj1 (Hp it Hin))) I0
+                (fun it Hin => proj1 (proj2 (Hp it Hin)))) as MA.
+  pose proof (obj_fold_mk_nil (ev_ f cC anC) items _ (fun it Hin => proj1 (proj2 (proj1 (Hp it Hin)))) I0
+                (fun it Hin => proj1 (proj2 (proj2 (Hp it Hin))))) as MC.
+  destruct (fold_left (obj_step (ev_ f cA anA)) items ([], [], true, [])) as [[[vA mA] kA] dA].
+  destruct (fold_left (obj_step (ev_ f cC anC)) items ([], [], true, [])) as [[[vC mC] kC] dC].
+  destruct Hr as [-> [WC Hr]]. destruct MA as [_ MA]. destruct MC as [_ MC].
+  rewrite (marks_unions_nil _ MA), (marks_unions_nil _ MC). cbn [negb fst with_marks].
+  destruct kA; cbn [negb fst with_marks].
+  - simpl. apply (Hr eq_refl).
+  - apply gsb_dyn_val. simpl. apply forallb_Forall. exact WC.
+Qed.
+
+(* ---- the theorem for the fragment ------------------------------------------------------------------------------ *)
+Theorem si_all : forall f, SI f.
+Proof.
+  induction f as [|f IH]; intros e cA cC anA anC Fr R Ra KA KC; [discriminate KA|].
+  destruct Fr as [v Hl|root steps Hs|src steps Fs Hs|a b Fa Fb|es Fes|items Fi|w force Fw|
+                  |op l r Fl Frr|op e Fe|ce te fe Fc Ft Ff|parts Fp|e Fe|e Fe].
+  - cbn [eval_with fst]. unfold lit_ok in Hl. apply andb_true_iff in Hl as [W I]. apply (gsb_refl_inv v W I).
+  - apply clean_S in KA as [DA _]. apply clean_S in KC as [DC _]. cbn [eval_with] in *.
+    apply (si_scope root steps cA cC Hs R DA DC).
+  - apply (si_reltrav f src steps IH cA cC anA anC (F_rel _ _ Fs Hs) R Ra KA KC).
+  - apply (si_index f a b IH cA cC anA anC (F_index _ _ Fa Fb) R Ra KA KC).
+  - apply (si_tuple f es IH cA cC anA anC (F_tuple _ Fes) R Ra KA KC).
+  - apply (si_obj f items IH cA cC anA anC (F_obj _ Fi) R Ra KA KC).
+  - apply (si_objkey f w force IH cA cC anA anC (F_objkey _ _ Fw) R Ra KA KC).
+  - apply clean_S in KA as [_ KA']. cbn [eval_with fst]. unfold anon_rel in Ra.
+    destruct anA as [x|], anC as [y|]; try contradiction; [tauto|discriminate KA'].
+  - apply (si_bin f op l r IH cA cC anA anC (F_bin _ _ _ Fl Frr) R Ra KA KC).
+  - apply (si_un f op e IH cA cC anA anC (F_un _ _ Fe) R Ra KA KC).
+  - apply (si_cond f ce te fe IH cA cC anA anC (F_cond _ _ _ Fc Ft Ff) R Ra KA KC).
+  - apply (si_tmpl f parts IH cA cC anA anC (F_tmpl _ Fp) R Ra KA KC).
+  - apply clean_S in KA as [_ KA']. apply clean_S in KC as [_ KC']. cbn [eval_with].
+    apply (IH e cA cC anA anC Fe R Ra KA' KC').
+  - apply clean_S in KA as [_ KA']. apply clean_S in KC as [_ KC']. cbn [eval_with].
+    apply (IH e cA cC anA anC Fe R Ra KA' KC').
+Qed.
+
+Theorem unknown_sound_partial : forall fuel e cA cC anA anC,
+  in_fragment e -> ctx_rel cA cC -> anon_rel anA anC ->
+  clean fuel cA anA e = true -> clean fuel cC anC e = true ->
+  gamma_strict (fst (eval fuel cA anA e)) (fst (eval fuel cC anC e)).
+Proof.
+  intros fuel e cA cC anA anC Fr R Ra KA KC. unfold eval.
+  destruct (ctx_rel_inv _ _ R) as [CiA CiC]. destruct (anon_rel_inv _ _ Ra) as [AiA AiC].
+  apply gamma_strict_inv.
+  - apply (iv_all fuel cA anA e Fr CiA AiA).
+  - apply (iv_all fuel cC anC e Fr CiC AiC).
+  - apply (si_all fuel e cA cC anA anC Fr R Ra KA KC).
+Qed.
+
+Corollary unknown_sound_partial_gamma : forall fuel e cA cC anA anC,
+  in_fragment e -> ctx_rel cA cC -> anon_rel anA anC ->
+  clean fuel cA anA e = true -> clean fuel cC anC e = true ->
+  gamma (fst (eval fuel cA anA e)) (fst (eval fuel cC anC e)).
+Proof. intros. apply gamma_strict_gamma. apply unknown_sound_partial; assumption. Qed.
+
+(* the concrete run of the theorem produces a wholly known value *)
+Corollary unknown_sound_concrete_known : forall fuel e cA cC anA anC,
+  in_fragment e -> ctx_rel cA cC -> anon_rel anA anC ->
+  clean fuel cA anA e = true -> clean fuel cC anC e = true ->
+  wholly_known (fst (eval fuel cC anC e)) = true.
+Proof.
+  intros fuel e cA cC anA anC Fr R Ra KA KC. unfold eval.
+  apply (gsb_wk _ _ (si_all fuel e cA cC anA anC Fr R Ra KA KC)).
+Qed.
+
+(* ---- the full statement, and why it does not hold for the faithful model ------------------------------------- *)
+(* contract for the functions of the context: calls are monotone for gamma *)
+Definition fn_mono (f : fn) : Prop := forall argsA argsC vA vC,
+  Forall2 gamma argsA argsC -> fn_call f argsA = CallOk vA -> fn_call f argsC = CallOk vC -> gamma vA vC.
+Definition ctx_fns_mono (c : ctx) : Prop :=
+  forall fr fs name f, In fr c -> ffuncs fr = Some fs -> assoc_get name fs = Some f -> fn_mono f.
+
+(* whole language; [expr_ok]: literals wholly known, the anonymous symbol used only where bound *)
+Definition unknown_sound_stmt : Prop := forall fuel e cA cC anA anC vA dA vC dC,
+  ctx_rel cA cC -> anon_rel anA anC -> ctx_fns_mono cA -> expr_ok (is_some anA) e = true ->
+  eval fuel cA anA e = (vA, dA) -> eval fuel cC anC e = (vC, dC) ->
+  has_errors dA = false -> has_unsupported dA = false ->
+  has_errors dC = false -> has_unsupported dC = false ->
+  gamma vA vC.
+
+(* Witness 1 (ConditionalExpr, known condition, one arm of unknown dynamic type): no conversion is
+   planned abstractly ("the final resultType type is still unknown"), concretely the arms are unified.
+     x = unknown(dynamic)  :  false ? x : 1          = 1       (number)
+     x = "a"               :  false ? x : 1          = "1"     (string)
+   The strict relation fails, the relation with conversion holds; but one operator later:
+     (false ? x : 1) == 1  = true   abstractly,   false   for x = "a". *)
+Definition w_x : list Z := [120].
+Definition w1_ctxA : ctx := [mkFrame (Some [(w_x, dyn_val)]) None].
+Definition w1_ctxC : ctx := [mkFrame (Some [(w_x, VStr [97])]) None].
+Definition w1_expr : expr := ECond (ELit (VBool false)) (EScopeTrav w_x []) (ELit (VNum (nz 1))).
+Definition w1_expr_eq : expr := EBin OpEq w1_expr (ELit (VNum (nz 1))).
+
+Lemma w1_ctx_rel : ctx_rel w1_ctxA w1_ctxC.
+Proof.
+  constructor; [|constructor]. split; [|reflexivity]. simpl.
+  constructor; [|constructor]. unfold var_rel. simpl. repeat split; reflexivity.
+Qed.
+Lemma w1_in_fragment : in_fragment w1_expr.
+Proof. repeat constructor. Qed.
+
+Lemma cond_dyn_arm_refuted :
+  value w1_ctxA w1_expr = (VNum (nz 1), []) /\ value w1_ctxC w1_expr = (VStr [49], []) /\
+  gsb (VNum (nz 1)) (VStr [49]) = false /\ gammab (VNum (nz 1)) (VStr [49]) = true.
+Proof. repeat split; vm_compute; reflexivity. Qed.
+
+Lemma cond_dyn_arm_eq_refuted :
+  value w1_ctxA w1_expr_eq = (VBool true, []) /\ value w1_ctxC w1_expr_eq = (VBool false, []) /\
+  gammab (VBool true) (VBool false) = false.
+Proof. repeat split; vm_compute; reflexivity. Qed.
+
+(* Witness 2 (ConditionalExpr, known condition): the UNSELECTED arm fails concretely; its
+   diagnostics are dropped but its value (DynamicVal) took part in choosing the result type.
+     m = {a = "b"}, x = unknown(string) :  true ? 1 : m[x]   = "1"   (unify(number, string) = string)
+     m = {a = "b"}, x = "z"             :  true ? 1 : m[x]   = 1     (m["z"] fails -> DynamicVal, dropped)
+   and   (true ? 1 : m[x]) == "1"  = true abstractly, false for x = "z". *)
+Definition w_m : list Z := [109].
+Definition w2_map : val := VMap TStr [([97], VStr [98])].
+Definition w2_ctxA : ctx := [mkFrame (Some [(w_m, w2_map); (w_x, VUnk TStr rf_none)]) None].
+Definition w2_ctxC : ctx := [mkFrame (Some [(w_m, w2_map); (w_x, VStr [122])]) None].
+Definition w2_expr : expr :=
+  ECond (ELit (VBool true)) (ELit (VNum (nz 1))) (EIndex (EScopeTrav w_m []) (EScopeTrav w_x [])).
+Definition w2_expr_eq : expr := EBin OpEq w2_expr (ELit (VStr [49])).
+
+Lemma w2_ctx_rel : ctx_rel w2_ctxA w2_ctxC.
+Proof.
+  constructor; [|constructor]. split; [|reflexivity]. simpl.
+  constructor; [|constructor; [|constructor]]; unfold var_rel; simpl; repeat split; reflexivity.
+Qed.
+
+Lemma cond_unselected_arm_refuted :
+  value w2_ctxA w2_expr = (VStr [49], []) /\ value w2_ctxC w2_expr = (VNum (nz 1), []) /\
+  gsb (VStr [49]) (VNum (nz 1)) = false /\ gammab (VStr [49]) (VNum (nz 1)) = true.
+Proof. repeat split; vm_compute; reflexivity. Qed.
+
+Lemma cond_unselected_arm_eq_refuted :
+  value w2_ctxA w2_expr_eq = (VBool true, []) /\ value w2_ctxC w2_expr_eq = (VBool false, []) /\
+  gammab (VBool true) (VBool false) = false.
+Proof. repeat split; vm_compute; reflexivity. Qed.
+
+(* the hypotheses of [unknown_sound_partial] that exclude the two witnesses *)
+Lemma w1_not_clean : clean 3 w1_ctxA None w1_expr = false.
+Proof. vm_compute. reflexivity. Qed.
+Lemma w2_not_clean : clean 4 w2_ctxC None w2_expr = false.
+Proof. vm_compute. reflexivity. Qed.
+
+Theorem unknown_sound_stmt_refuted : ~ unknown_sound_stmt.
+Proof.
+  intros H.
+  assert (G : gamma (VBool true) (VBool false)).
+  { apply (H (S (expr_size w1_expr_eq)) w1_expr_eq w1_ctxA w1_ctxC None None (VBool true) [] (VBool false) []).
+    - exact w1_ctx_rel.
+    - exact I.
+    - intros fr fs name f Hin Hf. destruct Hin as [<-|[]]. discriminate Hf.
+    - vm_compute. reflexivity.
+    - vm_compute. reflexivity.
+    - vm_compute. reflexivity.
+    - reflexivity.
+    - reflexivity.
+    - reflexivity.
+    - reflexivity. }
+  vm_compute in G. discriminate G.
+Qed.
+
+(* ---- a sub-fragment where "no error in the result" already means "no error anywhere" ---------------------------
+   No conditional and no && / ||: every diagnostic of a sub-evaluation reaches the result, so the
+   theorem holds in the plain form (both evaluations without errors and without S_Unsupported). *)
+Definition is_logic_op (o : binop) : bool := match o with OpOr | OpAnd => true | _ => false end.
+
+Inductive in_fragment_acc : expr -> Prop :=
+| A_lit v : lit_ok v = true -> in_fragment_acc (ELit v)
+| A_scope root steps : forallb step_inv steps = true -> in_fragment_acc (EScopeTrav root steps)
+| A_rel src steps : in_fragment_acc src -> forallb step_inv steps = true -> in_fragment_acc (ERelTrav src steps)
+| A_index a b : in_fragment_acc a -> in_fragment_acc b -> in_fragment_acc (EIndex a b)
+| A_tuple es : Forall in_fragment_acc es -> in_fragment_acc (ETuple es)
+| A_obj items : Forall (fun it => in_fragment_acc (fst it) /\ in_fragment_acc (snd it)) items -> in_fragment_acc (EObj items)
+| A_objkey w force : in_fragment_acc w -> in_fragment_acc (EObjKey w force)
+| A_bin op l r : is_logic_op op = false -> in_fragment_acc l -> in_fragment_acc r -> in_fragment_acc (EBin op l r)
+| A_un op e : in_fragment_acc e -> in_fragment_acc (EUn op e)
+| A_tmpl parts : Forall in_fragment_acc parts -> in_fragment_acc (ETmpl parts)
+| A_wrap e : in_fragment_acc e -> in_fragment_acc (EWrap e)
+| A_paren e : in_fragment_acc e -> in_fragment_acc (EParen e).
+
+Lemma tmpl_step_part ev st p : diag_ok (tmpl_ds (tmpl_step ev st p)) = true -> diag_ok (snd (ev p)) = true.
+Proof.
+  destruct st as [[[buf known] mk] ds]. unfold tmpl_step. intros D.
+  destruct (ev p) as [pv pds]. cbn [snd].
+  repeat match type of D with
+         | diag_ok (tmpl_ds (match ?x with _ => _ end)) = true => destruct_scrut x
+         end;
+  cbn [tmpl_ds] in D; repeat rewrite diag_ok_app in D;
+  repeat match type of D with (_ && _ = true) => let H := fresh in apply andb_true_iff in D as [D H] end;
+  assumption.
+Qed.
+
+Lemma tmpl_fold_parts ev : forall ps st, diag_ok (tmpl_ds (fold_left (tmpl_step ev) ps st)) = true ->
+  forall p, In p ps -> diag_ok (snd (ev p)) = true.
+Proof.
+  induction ps as [|q ps IH]; intros st D p Hin; [contradiction|]. simpl in D. destruct Hin as [<-|Hin].
+  - apply (tmpl_step_part ev st q). apply (fold_ds_ok (tmpl_step ev) tmpl_ds (tmpl_step_mono ev) ps _ D).
+  - apply (IH _ D p Hin).
+Qed.
+
+Lemma obj_step_part ev st it : diag_ok (obj_ds (obj_step ev st it)) = true ->
+  diag_ok (snd (ev (fst it))) = true /\ diag_ok (snd (ev (snd it))) = true.
+Proof.
+  destruct st as [[[vals mks] known] ds]. unfold obj_step. intros D.
+  destruct (ev (fst it)) as [k kds]. destruct (ev (snd it)) as [v vds]. cbn [snd].
+  assert (Q : diag_ok (ds ++ kds ++ vds) = true).
+  { repeat match type of D with
+           | diag_ok (obj_ds (match ?x with _ => _ end)) = true => destruct_scrut x
+           end;
+    cbn [obj_ds] in D; try exact D; rewrite diag_ok_app in D; apply andb_true_iff in D as [D _]; exact D. }
+  rewrite !diag_ok_app in Q. apply andb_true_iff in Q as [_ Q]. apply andb_true_iff in Q. exact Q.
+Qed.
+
+Lemma obj_fold_parts ev : forall its st, diag_ok (obj_ds (fold_left (obj_step ev) its st)) = true ->
+  forall it, In it its -> diag_ok (snd (ev (fst it))) = true /\ diag_ok (snd (ev (snd it))) = true.
+Proof.
+  induction its as [|q its IH]; intros st D it Hin; [contradiction|]. simpl in D. destruct Hin as [<-|Hin].
+  - apply (obj_step_part ev st q). apply (fold_ds_ok (obj_step ev) obj_ds (obj_step_mono ev) its _ D).
+  - apply (IH _ D it Hin).
+Qed.
+
+Lemma in_fragment_acc_sub e : in_fragment_acc e -> in_fragment e.
+Proof.
+  revert e. fix IH 2. intros e H. destruct H.
+  - apply F_lit; assumption.
+  - apply F_scope; assumption.
+  - apply F_rel; [apply IH|]; assumption.
+  - apply F_index; apply IH; assumption.
+  - apply F_tuple. induction H; constructor; [apply IH; assumption|assumption].
+  - apply F_obj. induction H as [|it its [Hk Hv] _ IHf]; constructor; [split; apply IH; assumption|assumption].
+  - apply F_objkey; apply IH; assumption.
+  - apply F_bin; apply IH; assumption.
+  - apply F_un; apply IH; assumption.
+  - apply F_tmpl. induction H; constructor; [apply IH; assumption|assumption].
+  - apply F_wrap; apply IH; assumption.
+  - apply F_paren; apply IH; assumption.
+Qed.
+
+Lemma acc_clean : forall f e c an, in_fragment_acc e -> diag_ok (snd (ev_ f c an e)) = true -> clean f c an e = true.
+Proof.
+  induction f as [|f IH]; intros e c an Fr D; [discriminate D|].
+  cbn [clean]. rewrite D. cbn [andb].
+  destruct Fr as [v Hl|root steps Hs|src steps Fs Hs|a b Fa Fb|es Fes|items Fi|w force Fw
+                  |op l r Ho Fl Frr|op e Fe|parts Fp|e Fe|e Fe]; try reflexivity.
+  - (* ERelTrav *) cbn [eval_with] in D. apply IH; [exact Fs|].
+    destruct (ev_ f c an src) as [v ds]. destruct (traverse_rel steps v []) as [r ds']. cbn [snd] in *.
+    rewrite diag_ok_app in D. apply andb_true_iff in D. tauto.
+  - (* EIndex *) cbn [eval_with] in D.
+    destruct (ev_ f c an a) as [cv cds] eqn:Ea. destruct (ev_ f c an b) as [kv kds] eqn:Eb.
+    destruct (index cv kv) as [r ids]. cbn [snd] in D. rewrite !diag_ok_app in D.
+    apply andb_true_iff in D as [D1 D]. apply andb_true_iff in D as [D2 _].
+    apply andb_true_iff. split; apply IH; try assumption; [rewrite Ea|rewrite Eb]; assumption.
+  - (* ETuple *) cbn [eval_with] in D. cbn [snd] in D. rewrite diag_ok_concat in D.
+    rewrite forallb_Forall in D. apply forallb_Forall. rewrite Forall_forall in *.
+    intros x Hx. apply IH; [apply (Fes x Hx)|]. apply D. apply in_map_iff. exists (ev_ f c an x).
+    split; [reflexivity|apply in_map; exact Hx].
+  - (* EObj *) cbn [eval_with] in D.
+    match type of D with
+    | context [fold_left ?stp items ?init] =>
+        change (fold_left stp items init) with (fold_left (obj_step (ev_ f c an)) items ([], [], true, [])) in D
+    end.
+    assert (Df : diag_ok (obj_ds (fold_left (obj_step (ev_ f c an)) items ([], [], true, []))) = true).
+    { destruct (fold_left (obj_step (ev_ f c an)) items ([], [], true, [])) as [[[v m] k] d]. destruct (negb k); exact D. }
+    apply forallb_Forall. rewrite Forall_forall in *. intros it Hin.
+    destruct (obj_fold_parts (ev_ f c an) items _ Df it Hin) as [Dk Dv]. destruct (Fi it Hin) as [Fk Fv].
+    apply andb_true_iff. split; apply IH; assumption.
+  - (* EObjKey *) cbn [eval_with] in D. destruct force; cbn [negb] in *; [apply IH; assumption|].
+    destruct w; try (destruct (literal_name _); [reflexivity|apply IH; assumption]).
+    destruct steps; reflexivity.
+  - (* EBin *) cbn [eval_with] in D.
+    destruct (ev_ f c an l) as [glv lds] eqn:El. destruct (ev_ f c an r) as [grv rds] eqn:Er.
+    assert (Q : diag_ok lds = true /\ diag_ok rds = true).
+    { destruct (has_unsupported lds || has_unsupported rds); [discriminate D|].
+      destruct (conv glv (binop_param op)) as [lv| |].
+      2,3: destruct (conv grv (binop_param op)); cbn [snd] in D; rewrite !diag_ok_app in D;
+           apply andb_true_iff in D as [_ D]; apply andb_true_iff in D; exact D.
+      destruct (conv grv (binop_param op)) as [rv| |].
+      2,3: cbn [snd] in D; rewrite !diag_ok_app in D; apply andb_true_iff in D as [_ D]; apply andb_true_iff in D; exact D.
+      destruct (unmark lv) as [lu lm]. destruct (unmark rv) as [ru rm].
+      assert (Hsc : forall X : option (val * list diag),
+                X = None -> diag_ok (snd (match X with
+                                          | Some (v0, ds0) => (with_marks v0 (marks_union lm rm), ds0)
+                                          | None =>
+                                              if has_errors (lds ++ rds) then (with_marks (VUnk (binop_type op) rf_none) (marks_union lm rm), lds ++ rds)
+                                              else match call_binop op lu ru with
+                                                   | OOk res => (with_marks res (marks_union lm rm), lds ++ rds)
+                                                   | OErr _ => (VUnk (binop_type op) rf_none, (lds ++ rds) ++ [derr S_OperationFailed []])
+                                                   | OUnsupported => (VUnk (binop_type op) rf_none, (lds ++ rds) ++ [dunsupported])
+                                                   end end)) = true -> diag_ok (lds ++ rds) = true).
+      { intros X -> Dx. destruct (has_errors (lds ++ rds)); [exact Dx|].
+        destruct (call_binop op lu ru); cbn [snd] in Dx; try exact Dx;
+          rewrite diag_ok_app in Dx; apply andb_true_iff in Dx; tauto. }
+      assert (Dlr : diag_ok (lds ++ rds) = true).
+      { destruct op; try discriminate Ho; apply (Hsc None eq_refl D). }
+      rewrite diag_ok_app in Dlr. apply andb_true_iff in Dlr. exact Dlr. }
+    destruct Q as [Dl Dr]. apply andb_true_iff. split; apply IH; try assumption; [rewrite El|rewrite Er]; assumption.
+  - (* EUn *) cbn [eval_with] in D. apply IH; [exact Fe|].
+    destruct (ev_ f c an e) as [gv ds]. cbn [snd].
+    destruct (conv gv (unop_param op)) as [v| |].
+    + destruct (has_errors ds); [exact D|]. destruct (unmark v) as [vu vm].
+      destruct (call_unop op vu); cbn [snd] in D; try exact D; rewrite diag_ok_app in D; apply andb_true_iff in D; tauto.
+    + cbn [snd] in D. rewrite diag_ok_app in D. apply andb_true_iff in D. tauto.
+    + cbn [snd] in D. rewrite diag_ok_app in D. apply andb_true_iff in D. tauto.
+  - (* ETmpl *) cbn [eval_with] in D.
+    match type of D with
+    | context [fold_left ?stp parts ?init] =>
+        change (fold_left stp parts init) with (fold_left (tmpl_step (ev_ f c an)) parts ([], true, [], [])) in D
+    end.
+    assert (Df : diag_ok (tmpl_ds (fold_left (tmpl_step (ev_ f c an)) parts ([], true, [], []))) = true).
+    { destruct (fold_left (tmpl_step (ev_ f c an)) parts ([], true, [], [])) as [[[b k] m] d]. exact D. }
+    apply forallb_Forall. rewrite Forall_forall in *. intros p Hin.
+    apply IH; [apply (Fp p Hin)|]. apply (tmpl_fold_parts (ev_ f c an) parts _ Df p Hin).
+  - (* EWrap *) cbn [eval_with] in D. apply IH; assumption.
+  - (* EParen *) cbn [eval_with] in D. apply IH; assumption.
+Qed.
+
+Theorem unknown_sound_accum : forall fuel e cA cC vA dA vC dC,
+  in_fragment_acc e -> ctx_rel cA cC ->
+  eval fuel cA None e = (vA, dA) -> eval fuel cC None e = (vC, dC) ->
+  has_errors dA = false -> has_unsupported dA = false ->
+  has_errors dC = false -> has_unsupported dC = false ->
+  gamma_strict vA vC.
+Proof.
+  intros fuel e cA cC vA dA vC dC Fr R EA EC H1 H2 H3 H4.
+  pose proof (unknown_sound_partial fuel e cA cC None None (in_fragment_acc_sub e Fr) R I) as G.
+  unfold eval in *. rewrite EA, EC in G. apply G.
+  - apply (acc_clean fuel e cA None Fr). rewrite EA. apply (diag_ok_intro _ H1 H2).
+  - apply (acc_clean fuel e cC None Fr). rewrite EC. apply (diag_ok_intro _ H3 H4).
+Qed.
+
+(* ---- constructs outside the fragment: hand samples checked by computation (NOT covered by the theorem) -------- *)
+Module Samples.
+  Definition funs := Some [([102], fn_first); ([105], fn_isnull); ([112], fn_pair); ([115], fn_sum); ([117], fn_upper)].
+  Definition mk (v : val) : ctx := [mkFrame (Some [(w_x, v)]) funs].
+  (* both runs free of diagnostics and the results related by gamma *)
+  Definition chk (t : expr * val * val) : bool :=
+    let '(e, vA, vC) := t in
+    let '(rA, dA) := value (mk vA) e in let '(rC, dC) := value (mk vC) e in
+    match dA, dC with [], [] => gammab rA rC | _, _ => false end.
+  Definition X := EScopeTrav w_x [].
+  Definition V := EScopeTrav [118] [].
+  Definition nlist := VList TNum [VNum (nz 1); VNum (nz 2)].
+  Definition ulist := VList TNum [VUnk TNum rf_none; VNum (nz 2)].
+  Definition nset := VSet TNum [VNum (nz 1); VNum (nz 2)].
+  Definition nmap := VMap TNum [([97], VNum (nz 1))].
+  Definition rl lo hi nn := RExact (mkRefn nn [] None None lo hi).
+  Definition one := ELit (VNum (nz 1)).
+  Definition cases : list (expr * val * val) :=
+    [ (* splat: length refinement copied from an unknown list / set; auto-upgrade of non-sequences *)
+      (ESplat X EAnon, VUnk (TList TNum) (rl 2 (Some 3) true), nlist);
+      (ESplat X EAnon, VUnk (TList TNum) (rl 2 (Some 2) true), nlist);
+      (ESplat X EAnon, VUnk (TSet TNum) (rl 1 (Some 2) true), nset);
+      (ESplat X EAnon, VUnk (TSet TNum) (rl 2 (Some 2) true), nset);
+      (ESplat X EAnon, VUnk (TMap TNum) (rl 1 (Some 1) true), nmap);
+      (ESplat X EAnon, VUnk (TMap TNum) (rl 1 (Some 1) false), nmap);
+      (ESplat X EAnon, VUnk TNum rf_none, VNum (nz 1));
+      (ESplat X EAnon, VUnk TNum rf_none, VNull TNum);
+      (ESplat X EAnon, VUnk TNum rf_notnull, VNum (nz 1));
+      (ESplat X EAnon, VUnk (TList TNum) (rl 0 None false), nlist);
+      (ESplat X (EBin OpAdd EAnon one), ulist, nlist);
+      (* for: unknown collection, unknown element, unknown condition, unknown key *)
+      (EFor [] [118] X None V None false, VUnk (TList TNum) (rl 2 (Some 2) true), nlist);
+      (EFor [] [118] X None (EBin OpAdd V one) None false, ulist, nlist);
+      (EFor [] [118] X None V (Some (EBin OpGt V one)) false, ulist, nlist);
+      (EFor [107] [118] X (Some (EScopeTrav [107] [])) V None false, VMap TNum [([97], VUnk TNum rf_none)], nmap);
+      (* calls: unknown argument, dynamically typed argument, expansion of an unknown list *)
+      (ECall [117] [X] false, VUnk TStr rf_none, VStr [97]);
+      (ECall [102] [X; one] false, dyn_val, VStr [97]);
+      (ECall [105] [X] false, dyn_val, VStr [97]);
+      (ECall [105] [X] false, dyn_val, VNull TStr);
+      (ECall [112] [ELit (VStr [97]); X] false, VUnk TNum rf_none, VNum (nz 5));
+      (ECall [115] [X] true, VUnk (TList TNum) (rl 0 None false), nlist);
+      (ECall [115] [X] true, ulist, nlist);
+      (* template join *)
+      (EJoin (EFor [] [118] X None V None false), ulist, nlist);
+      (EJoin (EFor [] [118] X None V None false), VUnk (TList TNum) (rl 0 None false), nlist) ].
+  Example outside_fragment_samples_ok : forallb chk cases = true.
+  Proof. vm_compute. reflexivity. Qed.
+End Samples.
